@@ -16,6 +16,8 @@ func init() {
 }
 
 func runC17(e *Engine, r *Report) {
+	// borrowed mechanisms (session 6, round 8): the check-quorum round counts the same members the quorum is made of (C18): a leader that cannot see its witnesses deposes itself although a majority is connected
+	borrow(e, r, "C18", "DEP-checkquorum")
 	tbl, err := e.RaftHandlerTable()
 	if err != nil {
 		r.undecided("TBL", "raft.handlers", err.Error())
